@@ -303,12 +303,12 @@ def _some_arm_entry(soa):
             toks = prov(soa, place_local(info[1]))
             if "c:get" in toks or "f:per_statement_annotations" in toks:
                 # the inner Option<StatementAnnotations> (after `?`): variant 1 = Some
-                for v_, s in switch_edges(soa, bb):
-                    if v_ == 1:
-                        # make sure this is the arm that reaches the function_id test
-                        r = check_guard(soa, Cmp("ne", "f:function_id", "f:function_id"), bypass="none")
-                        if r.ok and r.site in soa.reachable_blocks(s):
-                            return s
+                from .guards import succ_for_value
+                s = succ_for_value(soa, bb, 1)
+                # make sure this is the arm that reaches the function_id test
+                r = check_guard(soa, Cmp("ne", "f:function_id", "f:function_id"), bypass="none")
+                if r.ok and r.site in soa.reachable_blocks(s):
+                    return s
     return None
 
 
